@@ -62,7 +62,7 @@ class LayerSim(Sim):
     MAX_EVENTS = 30
     PROBES = ["bn_momentum_none", "bn_no_affine", "bn_no_tracking", "bn_eval_nontrivial_stats", "bn_3d_input", "bn_4d_input", "bn_2d_input",
               "bn_train_after_eval", "bn_eval_repeat", "bn_f64", "dropout_p0", "dropout_p1", "dropout_train", "dropout_eval", "dropout_stub_hit",
-              "dropout_backward_same_mask", "dropout_independence", "mode_by_propagation", "fault_in_bn_training_forward", "fault_in_bn_eval_forward",
+              "dropout_backward_same_mask", "dropout_two_pending_outputs_same_shape", "dropout_independence", "mode_by_propagation", "fault_in_bn_training_forward", "fault_in_bn_eval_forward",
               "stats_overwritten", "bn_momentum_1"]
     RULE = ("one run = 1-3 layers (BatchNorm1d/2d, Dropout; all constructor options) with a seeded history of mode switches (direct or by "
             "propagation), forwards, backwards, buffer overwrites and faults; distinct = layer configurations x mode/forward/backward sequence; "
@@ -117,9 +117,11 @@ class LayerSim(Sim):
                 ev["fault"] = {"kind": rng.choice(["alloc", "interrupt"]), "at": 1}
             return ev
         # dropout
-        if r < kn["p_mode"] + 0.15 and lid in st.last:
-            x, out = st.last[lid]
-            return {"k": "dropout_backward", "lid": lid, "g": enc(small_values(rng, out.data.shape, np.float64, -2, 2, avoid_zero=True))}
+        if r < kn["p_mode"] + 0.15 and st.last.get(lid):
+            # backward through ANY of the recent training outputs of this layer (not only the latest)
+            which = rng.randrange(len(st.last[lid]))
+            x, out = st.last[lid][which]
+            return {"k": "dropout_backward", "lid": lid, "which": which, "g": enc(small_values(rng, out.data.shape, np.float64, -2, 2, avoid_zero=True))}
         big = rng.random() < 0.5
         shape = (rng.randint(3, 5), rng.randint(96, 128)) if big else rng.choice([(4,), (2, 5), (2, 3, 4)])
         x = small_values(rng, shape, np.float64 if rng.random() < 0.5 else np.float32, -3, 3, avoid_zero=True)
@@ -329,7 +331,6 @@ class LayerSim(Sim):
             st.probes["dropout_eval"] += 1
             if got.tobytes() != xx.tobytes():
                 st.fail("C13.dropout_eval_identity", f"Dropout(p={p}) in eval mode changed its input")
-            st.last.pop(ev["lid"], None)
             return
         st.probes["dropout_p0" if p == 0 else "dropout_p1" if p == 1 else "dropout_train"] += 1
         scale = 1.0 / (1.0 - p) if p < 1 else 0.0
@@ -370,15 +371,18 @@ class LayerSim(Sim):
                 if prev is not None and prev == mask.tobytes():
                     st.fail("C13.dropout_independence", f"Dropout(p={p}) produced the same mask in two successive calls")
                 st.fw[(ev["lid"], xx.shape)] = mask.tobytes()
-        st.last[ev["lid"]] = (xt, out)
+        st.last.setdefault(ev["lid"], []).append((xt, out))
+        del st.last[ev["lid"]][:-3]
+        if len(st.last[ev["lid"]]) >= 2 and st.last[ev["lid"]][-2][1].data.shape == out.data.shape:
+            st.probes["dropout_two_pending_outputs_same_shape"] += 1
 
     def _ev_dropout_backward(self, st, ev):
         SG = st.SG
-        pair = st.last.get(ev["lid"])
-        if pair is None:
+        lst = st.last.get(ev["lid"]) or []
+        if ev.get("which", 0) >= len(lst):
             st.skipped += 1
             return
-        xt, out = pair
+        xt, out = lst.pop(ev.get("which", 0))
         g = dec(ev["g"])
         if not out.requires_grad or g.shape != out.data.shape:
             st.skipped += 1
@@ -396,4 +400,3 @@ class LayerSim(Sim):
         got = np.asarray(xt.grad.data, dtype=np.float64)
         if not np.all(np.abs(got - want) <= 2e-6 * np.abs(want) + 1e-12):
             st.fail("C13.dropout_backward", "the input gradient of Dropout is not g * mask/(1-p) with the mask of the forward call", p=st.L[ev["lid"]]["cfg"]["p"])
-        st.last.pop(ev["lid"], None)
